@@ -36,11 +36,18 @@ def parse_module(text):
     structs = {}
     raw_lines = text.splitlines()
     lines = []
+    in_switch = False
     for l in raw_lines:
         if l.lstrip().startswith("to label") and lines:
             lines[-1] += " " + l.strip()
+        elif in_switch:
+            lines[-1] += " " + l.strip()
+            if l.strip().startswith("]"):
+                in_switch = False
         else:
             lines.append(l)
+            if re.match(r"^\s*switch .*\[\s*$", l):
+                in_switch = True
     i = 0
     while i < len(lines):
         l = lines[i]
@@ -395,6 +402,15 @@ class Evaluator:
                 return ("br", mm.group(2) if c.v else mm.group(3))
             mm = re.match(r"^br label (\S+)$", rhs)
             return ("br", mm.group(1))
+        if op == "switch":
+            mm = re.match(r"^switch (\w+) (\S+), label (\S+) \[(.*)\]$", rhs)
+            v = self.val(mm.group(2), env)
+            if not (isinstance(v, Poly) and v.is_const()):
+                raise Inconclusive("switch on a value that is not fixed by the case (%r) in %s" % (v, fname))
+            for cm in re.finditer(r"\w+ (-?\d+), label (\S+)", mm.group(4)):
+                if int(cm.group(1)) == int(v.const_value()):
+                    return ("br", cm.group(2))
+            return ("br", mm.group(3))
         if op == "ret":
             mm = re.match(r"^ret (.+?) (\S+)$", rhs)
             if not mm:
@@ -514,6 +530,10 @@ class Evaluator:
                     env[dst] = atom("ext", callee, len(self.extcalls))
                 return None
             raise Inconclusive("call to %s not inlined in %s" % (callee, fname))
+        if op == "fneg":
+            mm = re.match(r"^fneg (?:[a-z]+ )*(\w+) (\S+)$", rhs)
+            env[dst] = atom("fneg", self.val(mm.group(2), env))
+            return None
         if op == "extractvalue":
             mm = re.match(r"^extractvalue (.+) (%[\w.]+), (\d+)$", rhs)
             if mm:
